@@ -1052,7 +1052,9 @@ pub fn corpus() -> Vec<(&'static str, Case)> {
                             SendSpec { k: 5, id: None, delay: "0s".into(), expr: false, to_self: false, var: true, loc: false },
                         ]),
                     ),
-                    op(0, 240, OpKind::Send(vec![mk_send(6, None, "40ms")])),
+                    // due at 320: not at 280, where send 2 of the other session falls due (two sends of different
+                    // sessions with one due time arrive in either order; the tie made this case flaky under load)
+                    op(0, 240, OpKind::Send(vec![mk_send(6, None, "80ms")])),
                 ],
                 horizon: 360,
                 sabotage: None,
@@ -1670,20 +1672,43 @@ fn selftest(args: &Args, model: &mut Model, rep: &mut Report) {
             Case { senders: 1, ops: vec![op(0, 0, OpKind::Send(vec![mk_send(0, None, "200ms")])), op(0, 80, OpKind::Term)], horizon: 280, sabotage: Some("no-terminate".into()) },
         ),
     ];
-    let mut scratch = Report::new("c16-selftest", "");
-    let prepared: Vec<Prepared> = tests.iter().map(|(n, _, c)| prepare(format!("corpus: selftest {}", n), c.clone(), model)).collect();
-    run_timing(prepared, 6, model, &mut scratch);
-    for (name, want, _) in &tests {
-        let sigs: Vec<String> = scratch
-            .oracle_failures
-            .iter()
-            .filter(|f| f["origin"].as_str() == Some(&format!("corpus: selftest {}", name)))
-            .map(|f| f["signature"].as_str().unwrap_or("").to_string())
-            .collect();
-        let ok = sigs.iter().any(|s| s.starts_with(want));
-        let differs = scratch.disagreements.iter().any(|d| d["origin"].as_str() == Some(&format!("corpus: selftest {}", name)));
-        summary.insert(format!("sabotage {}", name), json!({"expected": want, "oracle_said": sigs, "model_vs_impl_differs": differs}));
-        if !ok {
+    // A sabotaged document is recognised by the same oracle that judges the real runs, and that oracle
+    // refrains from timing verdicts on a run whose stamps show a scheduling stall (overloaded machine).
+    // A self-test whose runs were all stalled is therefore INCONCLUSIVE, not a disagreement: it is
+    // repeated (up to 4 rounds) and, if the machine never calms down, recorded as such.
+    let mut failed: Vec<(String, String, Vec<String>)> = vec![];
+    let mut stalled_last = 0u64;
+    for round in 0..4 {
+        let mut scratch = Report::new("c16-selftest", "");
+        let prepared: Vec<Prepared> = tests.iter().map(|(n, _, c)| prepare(format!("corpus: selftest {}", n), c.clone(), model)).collect();
+        run_timing(prepared, 6, model, &mut scratch);
+        stalled_last = scratch.extra.get("timing_cases_undecided_because_stalled").and_then(|v| v.as_u64()).unwrap_or(0);
+        failed.clear();
+        for (name, want, _) in &tests {
+            let sigs: Vec<String> = scratch
+                .oracle_failures
+                .iter()
+                .filter(|f| f["origin"].as_str() == Some(&format!("corpus: selftest {}", name)))
+                .map(|f| f["signature"].as_str().unwrap_or("").to_string())
+                .collect();
+            let ok = sigs.iter().any(|s| s.starts_with(want));
+            let differs = scratch.disagreements.iter().any(|d| d["origin"].as_str() == Some(&format!("corpus: selftest {}", name)));
+            summary.insert(format!("sabotage {}", name), json!({"expected": want, "oracle_said": sigs, "model_vs_impl_differs": differs, "round": round}));
+            if !ok {
+                failed.push((name.to_string(), want.to_string(), sigs));
+            }
+        }
+        if failed.is_empty() {
+            break;
+        }
+    }
+    for (name, want, sigs) in &failed {
+        if stalled_last > 0 {
+            summary.insert(
+                format!("sabotage {} INCONCLUSIVE", name),
+                json!({"expected": want, "oracle_said": sigs, "reason": "the runs of the self-test were stalled (overloaded machine) in all 4 rounds; the oracle gives no timing verdict on a stalled run", "stalled_cases_in_last_round": stalled_last}),
+            );
+        } else {
             rep.disagree(json!({"selftest": format!("sabotage '{}' was not flagged as {}", name, want), "oracle_said": sigs}));
         }
     }
